@@ -4,13 +4,18 @@ CONSTANTS
   LeafSpecs <- MCLeafSpecs
   FnSlots <- MCFnSlots
   MaxDepth = 2
-  MaxConv = 3
+  MaxConv = 2
   LifoRestore = TRUE
-  MaxBuilds = 2
+  MaxBuilds = 1
   Inherit <- MCInherit
-  SaveResolved = FALSE
+  SaveResolved = TRUE
 SPECIFICATION Spec
+VIEW view
 INVARIANT Quiescent
 INVARIANT ResolvesAsBefore
-INVARIANT EmitAtIdle
+INVARIANT NoLeakOutsideWorlds
+INVARIANT ActiveInBody
+INVARIANT RefCounts
+INVARIANT FlagInBody
+PROPERTY FramesRestored
 CHECK_DEADLOCK FALSE
